@@ -15,6 +15,8 @@ def harnesses(tier):
     H.append(BHarness('R_SingleSupernova', 'c09_sources.cpp', 'h_r_supernova', cflags=cf, timeout=900, maxsteps=3000000, what='SingleSupernovaPhotonSourceDistribution dumped before or after the explosion: position, lifetime, luminosity, energy and the exploded flag restored, same number of sources right after the restart; rewrite identical', bound='all fields symbolic, flag either value'))
     H.append(BHarness('R_SingleStar', 'c09_sources.cpp', 'h_r_singlestar', cflags=cf, timeout=900, maxsteps=3000000, what='SingleStarPhotonSourceDistribution: position and luminosity restored; rewrite identical', bound='all fields symbolic'))
     H.append(BHarness('R_AlveliusTurbulenceForcing', 'c09_alvelius.cpp', 'h_r_alvelius', cflags=cf, timeout=1200, maxsteps=8000000, what='AlveliusTurbulenceForcing (optional component): restart constructor on a free tape followed by write_restart_file reproduces exactly the consumed entries (count, types, values): reader and writer agree on order, types and all three table lengths; no out-of-bounds table access', bound='1x2x3 sub-grids of 1x2x3 cells, 2 modes (counts concrete by tape position, pairwise different per axis), every double entry symbolic'))
+    for nm, ent in (('UniformRandom', 'h_r_uniformrandom'), ('DiscPatch', 'h_r_discpatch'), ('Caproni', 'h_r_caproni')):
+        H.append(BHarness('R_%sSources' % nm, 'c09_random_sources.cpp', ent, cflags=cf, timeout=1200, maxsteps=8000000, what='%sPhotonSourceDistribution (optional component, dumped without an output file): the restart constructor run in storage with arbitrary previous content leaves no output-file pointer behind (the destructor and update() read it), and restart constructor + write_restart_file reproduce exactly the consumed tape entries (Caproni: pointer clause and abort-free dump only, it rebuilds derived lists after reading)' % nm, bound='free tape: counts 1..3 by position, every double symbolic, has_output = false; object storage pre-filled with symbolic words'))
     return H
 
 def run(tier, only=None):
